@@ -70,6 +70,7 @@ type frameSpec struct {
 	AllocPre string
 	Desc     string
 	Unrestricted bool // no modifies clause given: anything may change
+	Ghost        map[string]bool
 }
 
 type Obligation struct {
@@ -123,6 +124,9 @@ type State struct {
 	sentinels []string
 	deferArgs [][]Val
 	pendingRefs []string
+	allocTags    map[string]bool // dynamic types of the objects created since function entry
+	allocUnknown bool
+	summaryFor   string
 }
 
 type deferred struct {
@@ -258,6 +262,9 @@ func (s *State) typeFacts(t types.Type, terms []string, alloc string) {
 		if alloc != "" {
 			s.assume(and(app("<=", "0", terms[0]), app("<", terms[0], alloc)))
 		}
+		if tag := refTag(t); tag != "" {
+			s.assume(or(eq(terms[0], "0"), eq(app("rtype", terms[0]), strLit(tag))))
+		}
 	case *types.Slice:
 		s.assume(and(app("<=", "0", terms[0]), app("<=", terms[0], maxLen)))
 		s.assume(implies(terms[1], eq(terms[0], "0")))
@@ -338,13 +345,14 @@ type heapLeaf struct {
 	Sort string // array sort Int -> leaf sort
 	Elem string
 	Ref  bool
+	Tag  string
 	MapValRef string // for map value heaps whose values are references: the key sort
 }
 
 func heapLeaves(base string, t types.Type) []heapLeaf {
 	var out []heapLeaf
 	for _, l := range shapeOf(t) {
-		out = append(out, heapLeaf{Name: base + l.Name, Sort: arrSort(sInt, l.Sort), Elem: l.Sort, Ref: l.Ref})
+		out = append(out, heapLeaf{Name: base + l.Name, Sort: arrSort(sInt, l.Sort), Elem: l.Sort, Ref: l.Ref, Tag: l.Tag})
 	}
 	return out
 }
@@ -380,15 +388,23 @@ func (s *State) closureFact(h string, hl heapLeaf, alloc string) {
 		return
 	}
 	if alloc != "" && hl.MapValRef != "" {
-		s.assume(fmt.Sprintf("(forall ((r!c Int) (k!c %s)) (! (=> (< r!c %s) (and (<= 0 (select (select %s r!c) k!c)) (< (select (select %s r!c) k!c) %s))) :pattern ((select (select %s r!c) k!c))))",
-			hl.MapValRef, alloc, h, h, alloc, h))
+		ty := "true"
+		if hl.Tag != "" {
+			ty = fmt.Sprintf("(or (= (select (select %s r!c) k!c) 0) (= (rtype (select (select %s r!c) k!c)) %s))", h, h, strLit(hl.Tag))
+		}
+		s.assume(fmt.Sprintf("(forall ((r!c Int) (k!c %s)) (! (=> (< r!c %s) (and (<= 0 (select (select %s r!c) k!c)) (< (select (select %s r!c) k!c) %s) %s)) :pattern ((select (select %s r!c) k!c))))",
+			hl.MapValRef, alloc, h, h, alloc, ty, h))
 		return
 	}
 	if alloc == "" || !hl.Ref {
 		return
 	}
+	ty := "true"
+	if hl.Tag != "" {
+		ty = fmt.Sprintf("(or (= (select %s r!c) 0) (= (rtype (select %s r!c)) %s))", h, h, strLit(hl.Tag))
+	}
 	// only objects that exist (r < alloc) are constrained: fields of objects allocated later (e.g. by a callee) may point to newer objects
-	s.assume(fmt.Sprintf("(forall ((r!c Int)) (! (=> (< r!c %s) (and (<= 0 (select %s r!c)) (< (select %s r!c) %s))) :pattern ((select %s r!c))))", alloc, h, h, alloc, h))
+	s.assume(fmt.Sprintf("(forall ((r!c Int)) (! (=> (< r!c %s) (and (<= 0 (select %s r!c)) (< (select %s r!c) %s) %s)) :pattern ((select %s r!c))))", alloc, h, h, alloc, ty, h))
 }
 
 // heapIn returns the heap term in a snapshot, falling back to the entry constant.
@@ -457,9 +473,16 @@ func (s *State) storeHeap(base string, t types.Type, ref string, v Val) {
 }
 
 // allocRef returns a fresh non-nil reference and advances the allocation frontier.
-func (s *State) allocRef(hint string) string {
+func (s *State) allocRef(hint string, tag ...string) string {
 	r := s.fresh(hint, sInt)
 	s.assume(eq(r, s.alloc))
+	if len(tag) > 0 && tag[0] != "" {
+		s.assume(eq(app("rtype", r), strLit(tag[0])))
+		s.noteAllocTags(tag[0])
+	} else {
+		s.noteAllocTags("$hidden")
+		s.assume(eq(app("rtype", r), strLit("$hidden")))
+	}
 	na := s.fresh("alloc", sInt)
 	s.assume(eq(na, app("+", r, "1")))
 	s.alloc = na
